@@ -108,6 +108,7 @@ func (ic *importClient) Send(ctx context.Context, s capnp.Send) (*capnp.Answer, 
 		ic.c.mu.Lock()
 		ic.c.questions[q.id] = nil
 		ic.c.questionID.remove(uint32(q.id))
+		ic.c.unlockSender()
 		ic.c.mu.Unlock()
 		return capnp.ErrorAnswer(s.Method, errorf("create message: %v", err)), func() {}
 	}
